@@ -61,6 +61,7 @@ type Reach struct {
 	// library can have supplied g (it references g, materialises g's receiver
 	// type, or has interface/function-typed parameters it may be forwarding).
 	PreciseCallbacks bool
+	TrackEntry       bool
 	prev             map[searchState]searchHop
 	order   []searchState
 }
@@ -124,6 +125,9 @@ func (r *Reach) Run(sources []*ssa.Function, visit func(e *callgraph.Edge, calle
 			}
 			if cur.mode == modeModule && m != modeModule {
 				entry = cur.fn
+			}
+			if !r.PreciseCallbacks && !r.TrackEntry {
+				entry = nil // fewer states when nobody needs the entering function
 			}
 			st := searchState{callee, m, entry}
 			if _, ok := r.prev[st]; !ok {
